@@ -187,6 +187,36 @@ Theorem C16_node_lines_decode : forall table dflt rend a style g f anc last t ad
 Proof. exact node_lines_decode. Qed.
 Print Assumptions C16_node_lines_decode.
 
+(* Tree.format() (the text, default join "\n"): splitting at the line breaks
+   gives the lines back, hence the text decodes to the shape, whenever
+   renderings, title and segments contain no line break *)
+Theorem C16_text_decodes : forall table dflt rend,
+  (forall t, ~ In NL (rend t)) ->
+  forall a style g trepr f ti txt,
+  is_list_style a = false ->
+  resolve_style table dflt a = Ok style -> unpack style = Some g ->
+  style_okb g = true -> style_nl_free g = true ->
+  Forall (fun l => ~ In NL l) (title_lines trepr false ti) ->
+  tree_format table dflt rend trepr f a ti [NL] = Ok txt ->
+  decode_shape g (prefixes_of_lines (skipn (length (title_lines trepr false ti)) (split_on NL txt))
+                                    (map rend (pre_f f)))
+  = shape_f f.
+Proof. exact tree_text_decodes. Qed.
+Print Assumptions C16_text_decodes.
+
+(* str.join / str.split round trip used above, for any separator character *)
+Theorem C16_split_join : forall sep ls,
+  ls <> [] -> Forall (fun l => ~ In sep l) ls -> split_on sep (join_text [sep] ls) = ls.
+Proof. exact split_join. Qed.
+Print Assumptions C16_split_join.
+
+(* a branch is printed from contexts RELATIVE to it: the absolute contexts of
+   the nodes below any position are the relative ones with the outer flags in front *)
+Theorem C16_branch_contexts_are_relative : forall a l,
+  ctxs_l a l = map (shift a) (ctxs_l [] l).
+Proof. exact ctxs_l_shift. Qed.
+Print Assumptions C16_branch_contexts_are_relative.
+
 (* two forests printed with equal prefixes have equal shapes *)
 Corollary C16_prefixes_injective : forall g top f1 f2,
   style_okb g = true -> rel_prefixes g top f1 = rel_prefixes g top f2 -> shape_f f1 = shape_f f2.
@@ -231,6 +261,11 @@ Print Assumptions C16_default_style_in_table.
 Theorem C16_table_flags_ok : table_flags_ok CONNECTORS = true.
 Proof. vm_compute. reflexivity. Qed.
 Print Assumptions C16_table_flags_ok.
+
+(* no segment of the table contains a line break *)
+Theorem C16_table_nl_free : table_nl_free CONNECTORS = true.
+Proof. vm_compute. reflexivity. Qed.
+Print Assumptions C16_table_nl_free.
 
 (* hence: whatever Tree.format_iter answers for a style NAME of the real
    table (or the default), with any title, decodes to the shape *)
@@ -324,6 +359,16 @@ Example C16_ex_decode :
   /\ shape_f Ex.f = [Sh [Sh [Sh []; Sh [Sh []]]; Sh []]; Sh [Sh []]]
   /\ length (Ex.body (Ex.FI Ex.f (SNode ([false], false, n2)) Ex.custom4 false) 0) = 3.
 Proof. cbv zeta. repeat split; vm_compute; reflexivity. Qed.
+
+(* ... and from the text of Tree.format() *)
+Example C16_ex_text :
+  match tree_format CONNECTORS DEFAULT_CONNECTOR_STYLE Ex.rend Ex.trepr Ex.f Ex.lines32c TiDefault [NL] with
+  | Ok txt => Ex.decoded Ex.lines32c (skipn 1 (split_on NL txt)) (map Ex.rend (pre_f Ex.f)) = Some (shape_f Ex.f)
+              /\ length (split_on NL txt) = 9
+  | Err _ => False
+  end
+  /\ Ex.ok_and style_nl_free Ex.lines32c = true.
+Proof. vm_compute. repeat split; reflexivity. Qed.
 
 (* the flags theorem is not vacuous: the compact style has all segments
    distinct, and the flags of node 6 (relative depth 4 under a title) are read back *)
